@@ -151,6 +151,9 @@ func initConverter(loader *pkgload.PackageLoader, rawConverter *RawConverter) (*
 		}
 
 		c.typ = interfaceObj.Type()
+		if named, ok := c.typ.(*types.Named); ok && named.TypeParams().Len() > 0 {
+			return nil, fmt.Errorf("%s\n    %s.%s\n\nGeneric converter interfaces are not supported.", c.Location, c.Package, rawConverter.InterfaceName)
+		}
 		c.Name = rawConverter.InterfaceName + "Impl"
 		return c, nil
 	}
